@@ -12,7 +12,8 @@ Inductive oobs :=
 
 Definition raw_eqb (a b : raw) : bool :=
   match a, b with
-  | RRaise, RRaise | RRaiseOther, RRaiseOther => true
+  | RRaise x, RRaise y => Bool.eqb x y
+  | RRaiseOther, RRaiseOther => true
   | RVal x, RVal y => vtree_eqb x y
   | _, _ => false
   end.
@@ -26,10 +27,11 @@ Definition loc_ok (model : option string) (seen : option string) : bool :=
 Definition outcome_ok (o : outcome) (cls : nat) (d : option Z) (m : string) (l : option string) : bool :=
   Nat.eqb (sev o) cls && opt_eqb Z.eqb (delay o) d && text_ok (msg o) m && loc_ok (loc o) l.
 
-Definition pred_ok (model : option outcome) (seen : oobs) : bool :=
+Definition pred_ok (model : res (option outcome)) (seen : oobs) : bool :=
   match model, seen with
-  | None, ONone => true
-  | Some o, OOut c d m l => outcome_ok o c d m l
+  | Done None, ONone => true
+  | Done (Some o), OOut c d m l => outcome_ok o c d m l
+  | Raised _, ORaised => true
   | _, _ => false
   end.
 
@@ -63,11 +65,12 @@ Inductive case :=
 | CRf (pre : option (list vtree)) (pre_raw : option raw) (locals : option raw) (loc : string)
       (touched : bool) (o : oobs) (t : list site).
 
-Definition rf_ok (model : option (uoutcome vtree)) (seen : oobs) : bool :=
+Definition rf_ok (model : res (option (uoutcome vtree))) (seen : oobs) : bool :=
   match model, seen with
-  | Some (UVal v), OVal w => vtree_eqb v w
-  | Some (UOut o), OOut c d m l => outcome_ok o c d m l
-  | None, OVal VNull => true
+  | Done (Some (UVal v)), OVal w => vtree_eqb v w
+  | Done (Some (UOut o)), OOut c d m l => outcome_ok o c d m l
+  | Done None, OVal VNull => true
+  | Raised _, ORaised => true
   | _, _ => false
   end.
 
